@@ -221,6 +221,13 @@ def handout_phase(spec):
                                                  "MoveColumnEnd", "MoveLineStart", "MoveLineEnd", "ZoomIn", "ZoomOut", "ReadCellCurrent"])] for _ in range(rng.randint(6, 16))]
         if rng.random() < 0.5:
             case["again"] = {"mathml": case["mathml"] if rng.random() < 0.7 else expression(), "steps": make_steps(rng, every, 1, 8)}
+            if rng.random() < 0.3:
+                # a place marker set on the first expression, the walk undone (partly or all the way back), and the marker asked for on the next
+                # expression: whatever the library answers, the id it hands out must belong to the expression that is set NOW
+                m = rng.choice("123")
+                undo = rng.choice([1, 2, len(case["steps"]) + 2])
+                case["steps"] = case["steps"] + [["nav", "SetPlacemarker" + m]] + [["nav", "MoveLastLocation"]] * undo
+                case["again"]["steps"] = [["nav", "MoveTo" + m]] + case["again"]["steps"]
         cases.append(case)
     for case in cases:
         if time.time() > deadline:
